@@ -629,6 +629,9 @@ _INT_CLASSES = None
 
 
 def _canon_cls(c):
+    k = getattr(c, "__canon__", None)
+    if k is not None:
+        return k
     if c is sint:
         return int
     if c is sbool:
